@@ -25,17 +25,32 @@ type c10Spec struct {
 	SelB    string   `json:"sel_b,omitempty"`
 	// Pipe is appended to every selector (labels derived from the line).
 	Pipe string `json:"pipe,omitempty"`
+	// PipeB, if set, replaces Pipe for the second operand of a binary operation.
+	PipeB string `json:"pipe_b,omitempty"`
+	// Outer is a second vector aggregation around a "vec" query.
+	Outer *c10Outer `json:"outer,omitempty"`
 	BinOp   string   `json:"bin_op,omitempty"` // + and or unless
 	VecOp   string   `json:"vec_op,omitempty"`
 	Without bool     `json:"without,omitempty"`
 	Labels  []string `json:"labels,omitempty"`
 }
 
+// c10Outer is the outer vector aggregation of a nested query.
+type c10Outer struct {
+	VecOp   string   `json:"vec_op"`
+	Without bool     `json:"without,omitempty"`
+	Labels  []string `json:"labels"`
+}
+
 func (s c10Spec) Query() string {
 	r := durText(s.RangeNs)
 	s.Sel += s.Pipe
 	if s.SelB != "" {
-		s.SelB += s.Pipe
+		if s.PipeB != "" {
+			s.SelB += s.PipeB
+		} else {
+			s.SelB += s.Pipe
+		}
 	}
 	grp := ""
 	if len(s.Labels) > 0 {
@@ -47,7 +62,15 @@ func (s c10Spec) Query() string {
 	}
 	switch s.Kind {
 	case "vec":
-		return s.VecOp + grp + " (count_over_time(" + s.Sel + "[" + r + "]))"
+		q := s.VecOp + grp + " (count_over_time(" + s.Sel + "[" + r + "]))"
+		if s.Outer != nil {
+			kw := "by"
+			if s.Outer.Without {
+				kw = "without"
+			}
+			q = s.Outer.VecOp + " " + kw + " (" + strings.Join(s.Outer.Labels, ", ") + ") (" + q + ")"
+		}
+		return q
 	case "unwrap":
 		return "max_over_time(" + s.Sel + " | unwrap weight [" + r + "])" + grp
 	case "binop":
@@ -115,6 +138,28 @@ func (propC10) Gen(r *Rng, run uint64, tier string) *Plan {
 		if qs.Kind == "binop" && len(qs.Labels) == 0 {
 			qs.Labels = []string{"container"}
 		}
+		if qs.Kind == "binop" && spec.Msg == "jsonmix" && r.Bool(0.5) {
+			// the same field extracted as a typed JSON value on one side and as a string on the other
+			qs.PipeB = ` | json s="s" | drop msg`
+		}
+		if qs.Kind == "vec" && len(qs.Labels) > 0 && r.Bool(0.3) {
+			// A second aggregation around the first. by over by is left out: the
+			// engine unions the two lists, which is C11's business, not C10's.
+			o := &c10Outer{VecOp: []string{"sum", "sum", "max", "count"}[r.Intn(4)], Without: true}
+			if qs.Without && r.Bool(0.5) {
+				o.Without = false
+			}
+			pool := append(append([]string(nil), vocab...), qs.Labels...)
+			seenO := map[string]bool{}
+			for k := 1 + r.Intn(2); k > 0; k-- {
+				l := Pick(r, pool)
+				if !seenO[l] {
+					seenO[l] = true
+					o.Labels = append(o.Labels, l)
+				}
+			}
+			qs.Outer = o
+		}
 		if qs.Kind == "unwrap" && qs.Without {
 			// without(...) on an unwrap range keeps the unwrapped label itself in
 			// the series identity, which other engines strip; stay with by(...).
@@ -144,13 +189,17 @@ func project(labels map[string]string, spec c10Spec) map[string]string {
 	if spec.Kind == "plain" || len(spec.Labels) == 0 {
 		return cloneLabels(labels)
 	}
+	return projectBy(labels, spec.Without, spec.Labels)
+}
+
+func projectBy(labels map[string]string, without bool, names []string) map[string]string {
 	in := map[string]bool{}
-	for _, l := range spec.Labels {
+	for _, l := range names {
 		in[l] = true
 	}
 	out := map[string]string{}
 	for k, v := range labels {
-		if in[k] != spec.Without {
+		if in[k] != without {
 			out[k] = v
 		}
 	}
@@ -164,11 +213,11 @@ type c10Val struct {
 
 // c10Side computes, from the log path's view of the same samples, the vector
 // the query (or one operand of a binary operation) must produce at every step.
-func c10Side(t *testing.T, p *Plan, spec c10Spec, sel string, steps []int64, st *Stats) (map[int64]map[string]c10Val, int, map[int64]int, *Violation) {
+func c10Side(t *testing.T, p *Plan, spec c10Spec, sel string, pipe string, steps []int64, st *Stats) (map[int64]map[string]c10Val, int, map[int64]int, *Violation) {
 	// Reference partition: the same world through the log path, which keys
 	// streams by a sorted, quoted rendering of the label set.
 	ref := *p
-	ref.Query = sel + spec.Pipe
+	ref.Query = sel + pipe
 	ref.Params = Params{Start: p.Params.Start - spec.RangeNs - sec, End: p.Params.End, StepNs: sec, Limit: -1}
 	if ref.Params.Start == ref.Params.End {
 		ref.Params.End++
@@ -277,6 +326,31 @@ func c10Side(t *testing.T, p *Plan, spec c10Spec, sel string, steps []int64, st 
 			for gk, g := range groups {
 				vec[gk] = c10Val{g.labels, map[string]float64{"sum": g.sum, "count": g.cnt, "max": g.max, "min": g.min}[spec.VecOp]}
 			}
+			if spec.Outer != nil && spec.Kind == "vec" {
+				outer := map[string]*grp{}
+				for _, k := range sortedKeys(vec) {
+					iv := vec[k]
+					pl := projectBy(iv.labels, spec.Outer.Without, spec.Outer.Labels)
+					gk := RenderLabels(pl)
+					g := outer[gk]
+					if g == nil {
+						g = &grp{labels: pl, max: iv.v, min: iv.v}
+						outer[gk] = g
+					}
+					g.sum += iv.v
+					g.cnt++
+					if iv.v > g.max {
+						g.max = iv.v
+					}
+					if iv.v < g.min {
+						g.min = iv.v
+					}
+				}
+				vec = map[string]c10Val{}
+				for gk, g := range outer {
+					vec[gk] = c10Val{g.labels, map[string]float64{"sum": g.sum, "count": g.cnt, "max": g.max, "min": g.min}[spec.Outer.VecOp]}
+				}
+			}
 		}
 		out[T] = vec
 	}
@@ -324,13 +398,17 @@ func (propC10) Check(t *testing.T, p *Plan, st *Stats) *Violation {
 			s.points = append(s.points, CPoint{T: tsec, V: fmtVal(vec[k].v)})
 		}
 	}
-	left, n1, tot1, v := c10Side(t, p, spec, spec.Sel, steps, st)
+	left, n1, tot1, v := c10Side(t, p, spec, spec.Sel, spec.Pipe, steps, st)
 	if v != nil {
 		return v
 	}
 	nEnts, totals = n1, tot1
 	if spec.Kind == "binop" {
-		right, n2, _, v := c10Side(t, p, spec, spec.SelB, steps, st)
+		pipeB := spec.Pipe
+		if spec.PipeB != "" {
+			pipeB = spec.PipeB
+		}
+		right, n2, _, v := c10Side(t, p, spec, spec.SelB, pipeB, steps, st)
 		if v != nil {
 			return v
 		}
@@ -411,7 +489,7 @@ func (propC10) Check(t *testing.T, p *Plan, st *Stats) *Violation {
 			}
 		}
 		// (2) conservation of per-step totals (where the operator conserves them).
-		if spec.Kind == "plain" || spec.Kind == "vec" && spec.VecOp == "sum" {
+		if spec.Kind == "plain" || spec.Kind == "vec" && spec.VecOp == "sum" && (spec.Outer == nil || spec.Outer.VecOp == "sum") {
 			sums := map[float64]float64{}
 			for _, s := range got.Series {
 				for _, pt := range s.Points {
@@ -455,6 +533,8 @@ func (propC10) Check(t *testing.T, p *Plan, st *Stats) *Violation {
 				sort.Strings(lbls)
 				st.Probe("kind_" + spec.Kind + spec.BinOp)
 			st.ProbeIf(spec.Pipe != "", "labels_derived_from_line")
+			st.ProbeIf(spec.Outer != nil, "nested_vector_aggregation")
+			st.ProbeIf(spec.PipeB != "", "typed_vs_string_json_operands")
 			st.Signature(fmt.Sprintf("%s%s|%s|%v|%v|inst=%s|series=%d|ents=%d", spec.Kind, spec.BinOp, spec.VecOp, spec.Without, lbls, p.Tags["instant"], len(expSeries), nEnts))
 			}
 		}
@@ -485,7 +565,12 @@ func (propC10) ShrinkCandidates(p *Plan) []*Plan {
 	}
 	if spec.Pipe != "" {
 		s := spec
-		s.Pipe = ""
+		s.Pipe, s.PipeB = "", ""
+		mk(s)
+	}
+	if spec.Outer != nil {
+		s := spec
+		s.Outer = nil
 		mk(s)
 	}
 	for i := range spec.Labels {
